@@ -27,6 +27,11 @@ FUNCTIONS = [
     "nessai.proposal.flowproposal.FlowProposal.backward_pass",
     "nessai.proposal.flowproposal.FlowProposal.rescale",
     "nessai.proposal.flowproposal.FlowProposal.inverse_rescale",
+    "nessai.proposal.importance.ImportanceFlowProposal.draw",
+    "nessai.proposal.importance.ImportanceFlowProposal.compute_log_Q",
+    "nessai.proposal.importance.ImportanceFlowProposal.compute_meta_proposal_samples",
+    "nessai.proposal.importance.ImportanceFlowProposal.rescale",
+    "nessai.proposal.importance.ImportanceFlowProposal.inverse_rescale",
 ]
 BOUNDS = {"quick": dict(dimensions=1, batch=2), "thorough": dict(dimensions=1, batch=3)}
 SCOPE = ("Only the glue is decided: that the density reported at generation is the density evaluated at the generated point, that the array-level interface returns the model-level values, "
@@ -36,7 +41,7 @@ ASSUMPTIONS = [
     "torch tensors are a pass-through container (from_numpy / type / to / detach / cpu / numpy / astype)",
     "the reparameterisation is an uninterpreted map with log-Jacobian J(x) forwards and -J backwards (its own correctness is C07)",
 ]
-OUTSIDE = ["forward o inverse = identity and normalisation of the actual RealNVP / MAF / spline transforms (glasflow, torch, float32)", "trained or reset weights", "the 2-D density integral"]
+OUTSIDE = ["the eps-clip shell of the logit map for the importance sampler's proposal (C03, known finding F-C03-eps-clip)", "forward o inverse = identity and normalisation of the actual RealNVP / MAF / spline transforms (glasflow, torch, float32)", "trained or reset weights", "the 2-D density integral"]
 
 PARALLEL_UNITS = True
 MODS = ["nessai.flows.base", "nessai.flowmodel.base", "nessai.proposal.flowproposal", "nessai.livepoint"]
@@ -351,4 +356,11 @@ def units(tier):
         us.append(Unit(f"flowmodel[n={n},alt={alt}]", make_flowmodel(n, alt), MODS, opts, expect_cover=["end"], twin_runs=5, witness_every=1, nproc=1))
         us.append(Unit(f"proposal[n={n},alt={alt}]", make_proposal(n, alt), MODS, opts, expect_cover=["end"], mutants=["jac"] if not alt else [], twin_runs=5, witness_every=1,
                        setup=setup, nproc=1))
+    # the importance sampler's proposal (same clause of the statement): reuses the C03 model of ImportanceFlowProposal, density obligations only
+    from . import c03_ins_density as c03
+    nl0 = dict(exp_axioms="signs", fresh=True, timeout_ms=60000)
+    for (nf, reparam) in [(1, None), (2, None), (1, "logit")] + ([] if tier == "quick" else [(3, None), (2, "logit")]):
+        nl = nl0 if reparam is None else dict(nl0, exp_axioms="full")
+        us.append(Unit(f"ins_proposal[flows={nf},{reparam}]", c03.make_draw(1, nf, reparam, 1, density_only=True), c03.MODS, nl, expect_cover=["end"], twin_runs=5, witness_every=3,
+                       setup=c03.setup, nproc=1, time_budget_s=600))
     return us
